@@ -282,6 +282,10 @@ def container_method(ex, recv: VRef, name, args, kwargs, st):
         if name == "get":
             key = z_int(args[0])
             default = args[1] if len(args) > 1 else kwargs.get("default")
+            if vk == "ref" and (default is None or isinstance(default, VRef)):
+                # no path split needed: a reference or the default
+                dz = z3.IntVal(0) if default is None else default.z
+                return [Res("val", VRef(z3.If(st.dict_has(r, key), st.dict_val(r, key), dz), vcls), st)]
             out = []
             for has, bs in ex.split(st, st.dict_has(r, key)):
                 if has:
@@ -521,7 +525,44 @@ def comprehension_call(ex, fname, e: ast.Call, st):
         if r.kind == "raise":
             out.append(r)
             continue
-        out += _comp_over(ex, fname, comp, gen, r.val, r.st, e)
+        try:
+            out += _comp_over(ex, fname, comp, gen, r.val, r.st.fork(), e)
+        except Unsupported as u:
+            if fname in ("all", "any") and "impure" in str(u) and not gen.ifs:
+                out += _all_any_as_loop(ex, fname, comp, gen, r.st)
+            else:
+                raise
+    return out
+
+
+def _all_any_as_loop(ex, fname, comp, gen, st):
+    """
+    all(E for x in it) / any(...) whose element has effects (calls a contract that mutates state):
+    desugared mechanically to the short-circuiting loop CPython runs,
+        acc = True;  for x in it:  if not E: acc = False; break
+    which is then cut at the invariant the contract file gives for that loop ordinal.
+    """
+    acc = "__allany_acc"
+    is_all = fname == "all"
+    test = ast.UnaryOp(op=ast.Not(), operand=comp.elt) if is_all else comp.elt
+    body = [ast.If(test=test, body=[ast.Assign(targets=[ast.Name(id=acc, ctx=ast.Store())], value=ast.Constant(value=not is_all)),
+                                   ast.Break()], orelse=[])]
+    loop = ast.For(target=gen.target, iter=gen.iter, body=body, orelse=[])
+    init = ast.Assign(targets=[ast.Name(id=acc, ctx=ast.Store())], value=ast.Constant(value=is_all))
+    mod = ast.Module(body=[init, loop], type_ignores=[])
+    ast.fix_missing_locations(mod)
+    for n in ast.walk(mod):
+        if not hasattr(n, "lineno"):
+            n.lineno = getattr(comp, "lineno", 0)
+    out = []
+    for o in ex.exec_block(mod.body, st):
+        if o.kind == "normal":
+            v = o.st.env.pop(acc)
+            out.append(Res("val", v, o.st))
+        elif o.kind == "raise":
+            out.append(Res("raise", o.val, o.st))
+        else:
+            raise Unsupported("control flow escaping all()/any()")
     return out
 
 
